@@ -97,7 +97,7 @@ def gmFlags (rankC : κ → Nat) (centre : κ → κ → κ → F64.Bits) (ms : 
     let ratios := pairs.filterMap fun (x, y) => ratioOf x y
     { differs := !isBase && !sameSet rc rb,
       superset := !isBase && rb.all (· ∈ rc) && !rc.all (· ∈ rb),
-      hasInf := centres.any isPosInf || (rb.map fun r => centre t r b).any isPosInf,
+      hasInf := centres.any isPosInf || (rb.map fun r => centre t r b).any isPosInf || (!isBase && ratios.any isPosInf),
       sumNonPos := centres.any notPositive,
       ratioWarn := !isBase && !bad && (ratios.isEmpty || ratios.any notPositive) }
 
